@@ -702,6 +702,7 @@ func (s *Store) SetVersion(id core.TractID, newVersion int, conditionalStamp uin
 	t, stamp := s.openExistingTractWithStamp(context.TODO(), id, os.O_RDWR)
 
 	if conditionalStamp != 0 && conditionalStamp != stamp {
+		s.closeErrTract(t)
 		return 0, core.ErrStampChanged
 	}
 
